@@ -502,8 +502,92 @@ func (r *Region) MustPassUp(pt eng.Point, q func(ssa.Instruction) bool) (bool, s
 // BeforeDeep: on every path from the root's entry, an instruction matching qa executes before any instruction matching qb
 // can execute (both lifted through helpers; ordering inside a common helper is checked inside that helper).
 func (r *Region) BeforeDeep(qa, qb func(ssa.Instruction) bool) (bool, ssa.Instruction) {
-	mayB := liftMay(r.c, qb)
-	la := liftMust(r.c, qa, mayB)
+	mayB := r.May(qb)
+	la := r.Must(qa, mayB)
 	stop := func(ins ssa.Instruction) bool { return !la(ins) && mayB(ins) }
 	return eng.MustPassBefore(eng.Point{B: r.Root.Blocks[0]}, la, stop)
+}
+
+// May lifts q through helper calls that stay inside the region.
+func (r *Region) May(q func(ssa.Instruction) bool) func(ssa.Instruction) bool {
+	memo := map[*ssa.Function]int{}
+	var has func(f *ssa.Function) bool
+	has = func(f *ssa.Function) bool {
+		switch memo[f] {
+		case 1:
+			return true
+		case 2, 3:
+			return false
+		}
+		memo[f] = 3
+		found := false
+		for _, b := range f.Blocks {
+			for _, ins := range b.Instrs {
+				if q(ins) {
+					found = true
+				}
+				if cl, ok := ins.(*ssa.Call); ok && !found {
+					for _, h := range repoCallees(r.c, cl) {
+						if r.In[h] && h != r.Root && has(h) {
+							found = true
+						}
+					}
+				}
+			}
+		}
+		if found {
+			memo[f] = 1
+		} else {
+			memo[f] = 2
+		}
+		return found
+	}
+	return func(ins ssa.Instruction) bool {
+		if q(ins) {
+			return true
+		}
+		cl, ok := ins.(*ssa.Call)
+		if !ok {
+			return false
+		}
+		for _, h := range repoCallees(r.c, cl) {
+			if r.In[h] && h != r.Root && has(h) {
+				return true
+			}
+		}
+		return false
+	}
+}
+
+// Must lifts q through helper calls that stay inside the region (every path through the helper matches before any stop).
+func (r *Region) Must(q, stop func(ssa.Instruction) bool) func(ssa.Instruction) bool {
+	memo := map[*ssa.Function]int{}
+	var lifted func(ssa.Instruction) bool
+	lifted = func(ins ssa.Instruction) bool {
+		if q(ins) {
+			return true
+		}
+		h := singleRepoCallee(r.c, ins)
+		if h == nil || !r.In[h] || h == r.Root {
+			return false
+		}
+		switch memo[h] {
+		case 1:
+			return true
+		case 2, 3:
+			return false
+		}
+		memo[h] = 3
+		ok, _ := eng.MustPass(eng.Point{B: h.Blocks[0]}, lifted)
+		if ok && stop != nil {
+			ok, _ = eng.MustPassBefore(eng.Point{B: h.Blocks[0]}, lifted, stop)
+		}
+		if ok {
+			memo[h] = 1
+		} else {
+			memo[h] = 2
+		}
+		return ok
+	}
+	return lifted
 }
